@@ -269,40 +269,32 @@ fn run_on_error_instruction(
     meta_info: InstructionMetaInfo,
     env: &mut Env,
 ) -> Result<(), String> {
-    if commands.exists("on_error") {
-        let mut script_instruction = ScriptInstruction::new();
-        script_instruction.command = Some("on_error".to_string());
-        script_instruction.arguments = Some(vec![
-            error,
-            meta_info.line.unwrap_or(0).to_string(),
-            meta_info.source.unwrap_or("".to_string()),
-        ]);
-        let instruction = Instruction {
-            meta_info: InstructionMetaInfo::new(),
-            instruction_type: InstructionType::Script(script_instruction),
-        };
+    match commands.get_for_use("on_error") {
+        Some(command_instance) => {
+            // the error message, line and source are values, not script text: hand them
+            // to the command as they are instead of binding them as written arguments
+            let command_args = CommandInvocationContext {
+                arguments: vec![
+                    error,
+                    meta_info.line.unwrap_or(0).to_string(),
+                    meta_info.source.unwrap_or("".to_string()),
+                ],
+                state,
+                variables,
+                output_variable: None,
+                instructions,
+                commands,
+                line: 0,
+                env,
+            };
 
-        let (command_result, output_variable) = run_instruction(
-            commands,
-            variables,
-            state,
-            instructions,
-            instruction,
-            0,
-            env,
-        );
-
-        match command_result {
-            CommandResult::Exit(output) => {
-                update_output(variables, output_variable, output);
-
-                Err("Exiting Script.".to_string())
+            match command_instance.run(command_args) {
+                CommandResult::Exit(_) => Err("Exiting Script.".to_string()),
+                CommandResult::Crash(error) => Err(error),
+                _ => Ok(()),
             }
-            CommandResult::Crash(error) => Err(error),
-            _ => Ok(()),
         }
-    } else {
-        Ok(())
+        None => Ok(()),
     }
 }
 
